@@ -22,9 +22,9 @@ def run(chk):
 
     def opts(g, seed):
         return {'shim': {'trace': True}, 'spellings': [SPELLINGS[seed % len(SPELLINGS)]]}
-    stages.transition_tests(chk, 'links', groups, sample=600 if quick else None, per_stratum=3,
+    stages.transition_tests(chk, 'links', groups, sample=900 if quick else None, per_stratum=3,
                             strat=lambda g: (g['lab']['args'][0]['r'], g['lab']['args'][0]['d'], g['lab']['opts']['inter'],
-                                             g['lab']['opts']['hf'], len(g['cfg']['mounted'])),
+                                             g['lab']['opts']['hf'], len(g['cfg']['mounted']), tuple(g['cfg']['altfile'])),
                             opts_fn=opts, judge=c07.one_rename_judge, seeds_per_group=5 if quick else 20)
     common.behaviours(chk, 'link-roundtrip', 40 if quick else 300, 8)
 
